@@ -724,8 +724,21 @@ spf_makro(const char *token, const char *domain, int ex, char **result)
 	if (ex == 1) {
 		toklen = strlen(token);
 	} else {
+		int brace = 0;	/* inside of %{...} '/' is a delimiter and does not end the domain-spec */
+
 		p = token;
-		while ((*p != '\0') && !WSPACE(*p) && (*p != '/')) {
+		while ((*p != '\0') && !WSPACE(*p) && (brace || (*p != '/'))) {
+			if (brace) {
+				if (*p == '}')
+					brace = 0;
+			} else if (*p == '%') {
+				if (*(p + 1) == '{') {
+					brace = 1;
+				} else if (*(p + 1) == '%') {
+					p++;
+					toklen++;
+				}
+			}
 			p++;
 			toklen++;
 		}
